@@ -308,6 +308,7 @@ class Interp:
         self.steps = 0
         self.max_steps = max_steps
         self.on_store = on_store
+        self.class_store: dict[tuple[str, str], object] = {}  # (class name, attribute) -> value of attributes stored on a class of the analysed package
 
     # ------------------------------------------------------------------ expressions
     def ev(self, e: ast.AST, env: dict, mod=None):
@@ -365,6 +366,9 @@ class Interp:
                     return base.fields[e.attr]
                 if e.attr in base.methods:
                     return base.methods[e.attr]
+                for cname in base.classes:
+                    if (cname, e.attr) in self.class_store:
+                        return self.class_store[cname, e.attr]
                 raise Raises("AttributeError", f"{base!r}.{e.attr}")
             if isinstance(base, enum.Enum) and e.attr in ("name", "value"):
                 return getattr(base, e.attr)
@@ -787,6 +791,8 @@ class Interp:
             env[norm(target.value)].fields[target.attr] = value
         elif isinstance(target, ast.Attribute) and isinstance(target.value, ast.Attribute) and isinstance(self._try_ev(target.value, env), Obj):
             self._try_ev(target.value, env).fields[target.attr] = value
+        elif isinstance(target, ast.Attribute) and isinstance(target.value, ast.Name) and target.value.id not in env and isinstance(self._try_ev(target.value, env), ClassRef):
+            self.class_store[self._try_ev(target.value, env).name, target.attr] = value
         elif isinstance(target, ast.Subscript) and isinstance(env.get(norm(target.value)), (list, dict)):
             _guard(env[norm(target.value)].__setitem__, self.ev(target.slice, env), value)
         elif isinstance(target, ast.Subscript) and isinstance(target.value, ast.Attribute) and isinstance(self._try_ev(target.value, env), (list, dict)):
@@ -798,7 +804,7 @@ class Interp:
 
     def _try_ev(self, e, env):
         try:
-            return self.ev(e, env)
+            return self.ev(e, env, getattr(self, "_cur_mod", None))
         except (Undecided, Raises):
             return None
 
@@ -807,14 +813,18 @@ class Interp:
             self.stmt(s, env, mod)
 
     def stmt(self, s, env, mod):
+        self._cur_mod = mod
         self.steps += 1
         if self.steps > self.max_steps:
             raise Undecided("step budget exhausted")
         if isinstance(s, ast.Expr):
             if isinstance(s.value, ast.Constant):
                 return
-            if isinstance(s.value, ast.Call) and norm(s.value.func).split(".")[0] in ("_LOGGER", "LOGGER", "logging", "_logger") or (isinstance(s.value, ast.Call) and norm(s.value.func).startswith("self._logger")):
-                return
+            if isinstance(s.value, ast.Call):
+                ftxt = norm(s.value.func)
+                modelled = ftxt in self.externs or any(ftxt.startswith(k + ".") for k in self.consts)  # the checker models this part of logging
+                if not modelled and (ftxt.split(".")[0] in ("_LOGGER", "LOGGER", "logging", "_logger") or ftxt.startswith("self._logger")):
+                    return
             self.ev(s.value, env, mod)
             return
         if isinstance(s, (ast.Assign, ast.AnnAssign)):
